@@ -20,6 +20,18 @@ CLAIMS = {
    text="OidTexts.tla (TLC) enumerates 18432 strings from a token grammar (1..3 arcs over 26 boundary/bad tokens, one bad token per position, dot placement, 2..129 arcs), checks print(parse(s)) = s and canonicity at design level, and classifies each string; every string goes through get_many() and GetIter() on a real socket, and TraceSession.tla requires refusal <=> nothing sent, sent OID octets = OidFromText(s), and the echoed OID rendered back to identical text.",
    note="Strings on which the statement is silent (leading '+', leading zeros, second arc >= 40 under first arc 2) may be refused or sent as exactly the denoted OID.",
    ref="DESIGN.md 5 C08", technique="TLC grammar enumeration with design-level round-trip law + TLC trace validation"),
+ "C09": dict(
+   text="Real v3 sockets are swept over everything that moves the msgAuthenticationParameters offset (engine id / user name lengths, boots/time widths adopted from replies, request sizes across length-form boundaries) x {MD5, SHA-1} x {none, DES, AES} x {password, master, localized} keys, sharing the buffer pool with another session, plus sessions without a key. TraceSession.tla (Props={C09}) decodes each datagram, locates the 12 octets itself, zeroes them and requires them to equal HMAC96(alg, Kul(user key, engine id in the message), zeroed message); the two uninterpreted terms are evaluated by hashlib on exactly the arguments TLC derived. Session.tla is model-checked for the authenticated configuration.",
+   note="MD5/SHA-1/HMAC and RFC 3414 key localisation are uninterpreted in the specification and interpreted by hashlib. Buffer.tla's bookmark lemma is part of the C17 check.",
+   ref="DESIGN.md 5 C09", technique="TLC trace validation with uninterpreted HMAC terms bound by an interpretation table"),
+ "C11": dict(
+   text="Privacy.tla is model-checked by TLC (PayloadIsScopedPdu, SaltFresh, NoSpuriousRefusal over all histories of sends, encrypted replies, plaintext reports, timeouts, set_keys; the pinned DES defect is reproduced by DEV_DesNoReset). Every behaviour within the bound plus a run of 90-200 unanswered requests is replayed on real DES/AES sessions (MD5/SHA-1, password/master/localized keys, varying boots/time); each emitted msgData is decrypted by the reference cipher under the independently derived key/IV and TraceSession.tla (Props={C11}) requires the plaintext to decode to exactly the scoped PDU of the request followed by < 1 block of padding; encrypted agent replies must be delivered with their exact content.",
+   note="DES-CBC / AES-128-CFB / key localisation are uninterpreted in the specification; the interpretation is a pure-Python reference validated on FIPS/RFC vectors and against the openssl CLI.",
+   ref="DESIGN.md 5 C11", technique="TLC model checking of Privacy.tla + behaviour replay + TLC trace validation"),
+ "C14": dict(
+   text="Privacy.tla (TLC) establishes salt freshness per key installation with the counter modelled modulo 8. Long seeded single-session runs (8400 / 96000 messages) of mixed requests interleaved with encrypted replies, plaintext reports, timeouts and set_keys are recorded from real DES and AES sessions; TraceSession.tla (Props={C14}) requires of every datagram: 8-octet msgPrivacyParameters never seen before in the key installation and equal to the previous + 1 (DES: boots || 32-bit counter, AES: 64-bit counter), priv flag set, msgData an OCTET STRING, and no occurrence of the request's OID octets anywhere in the datagram.",
+   note="2^32 messages are not executed; uniqueness beyond the run follows from the +1 step and the transmitted counter width.",
+   ref="DESIGN.md 5 C14", technique="TLC model checking of Privacy.tla (salt counter) + long-run TLC trace validation"),
  "C15": dict(
    text="MC_Codec.tla (TLC) establishes the encode/decode laws of the specification's own codec over bounded universes (all signed values of <=1-2 octets, length forms, truncation, OID prefix/order lemmas). The library's INTEGER encoder/decoder is run over every value of 1..2 (thorough 1..3) content octets, neighbourhoods of every +-2^(8k-1)/+-2^(8k) and random i64; OID text->octets->TLV->text over the grammar corpus; whole v1/v2c/v3 request messages are encoded and decoded back by the library; arbitrary i64 also reach the wire through the public API (max_repetitions). TraceCodec.tla / TraceSession.tla judge every record: encoding = the minimal X.690 form computed by the specification, decode(encode(x)) = x, nothing left over.",
    note="Batched validation (4000 records per event). Messages that do not fit the buffer are outside C15 (see C17).",
